@@ -102,6 +102,7 @@ Definition mon_block (dbg reach : bool) (b : blk) : list (N * N) :=
          fails 1 3 (negb reach || Bool.eqb (memN 0 n) (spec_pass_ok stp st)) ++
          fails 1 4 (negb reach || set_eqN moves (spec_offered_moves c (side s) stp st)) ++
          fails 12 3 (negb reach || negb (is_mcp (pstate pp)) || match n with [] => false | _ => true end) ++
+         fails 12 4 (negb reach || negb (is_mcp (pstate pp)) || set_eqN n (spec_offered_moves c (side s) stp st)) ++
          (match get tagV b with
           | Some v =>
             let mv := gm tagV in
